@@ -12,6 +12,12 @@ mod common;
 mod c01;
 mod c02_c03;
 mod c04;
+mod c05;
+mod c06;
+mod c07;
+#[cfg(feature = "std")]
+mod c13;
+mod linkfmt;
 
 type CheckFn = fn(&Ctx, &mut Report);
 
@@ -21,6 +27,14 @@ fn table() -> Vec<(&'static str, CheckFn)> {
     t.push(("C02", c02_c03::run_c02));
     t.push(("C03", c02_c03::run_c03));
     t.push(("C04", c04::run));
+    t.push(("C05", c05::run));
+    t.push(("C06", c06::run));
+    t.push(("C07", c07::run));
+    #[cfg(feature = "std")]
+    t.push(("C13", c13::run));
+    t.push(("C16", linkfmt::run_c16));
+    t.push(("C17", linkfmt::run_c17));
+    t.push(("C18", linkfmt::run_c18));
     t
 }
 
